@@ -152,8 +152,17 @@ func genC13(e *emitter, r *rng, thorough bool) {
 	}
 }
 
-var curveN = bec.S256().N
-var curveP = bec.S256().P
+// the group order and field prime as literals: no package-level initialiser may touch bec.S256(), so that
+// `harness conc` really makes the FIRST call to S256() from racing goroutines (checked against the
+// library's values by initCurveVars, which every other subcommand runs)
+var curveN = bigOf("FFFFFFFFFFFFFFFFFFFFFFFFFFFFFFFEBAAEDCE6AF48A03BBFD25E8CD0364141")
+var curveP = bigOf("FFFFFFFFFFFFFFFFFFFFFFFFFFFFFFFFFFFFFFFFFFFFFFFFFFFFFFFEFFFFFC2F")
+
+func initCurveVars() {
+	if curveN.Cmp(bec.S256().N) != 0 || curveP.Cmp(bec.S256().P) != 0 {
+		panic("harness: curve constants differ from the library's")
+	}
+}
 
 func bigOf(s string) *big.Int { n, _ := new(big.Int).SetString(s, 16); return n }
 
